@@ -280,6 +280,10 @@ def generate(ctx):
         if acc is None or not (acc >= 0).any():
             continue
         yield "capacity", dict(gens.graph_case(acc, k), fam=fam, npseed=rng.getrandbits(32))
+    for gi, (k, d) in enumerate([(2, 2), (2, 3), (3, 2), (3, 3), (4, 2), (4, 3)]):
+        for dead in (0, 4 ** k - 1, None):
+            if ctx.mine(gi):
+                yield "regular_dead", dict(k=k, d=d, dead=dead if dead is not None else rng.randrange(4 ** k), seed=rng.getrandbits(30))
     for k in (5, 6, 7, 8):
         if ctx.mine(k):
             cols = rng.sample(range(4), rng.choice([1, 2, 3]))     # keep these nucleotide columns: a d-regular graph
@@ -389,6 +393,32 @@ def check_bounds(ctx, case):
     ctx.done("bounds", case, True)
 
 
+def check_regular_dead(ctx, case):
+    """Every vertex but one is live and has exactly d live successors; the arcs into the one arc-less vertex are kept as
+    well (they lead nowhere).  The property promises exactly log2 d."""
+    dsw = import_dsw()
+    import random as _r
+    rng = _r.Random(case["seed"])
+    k, d, dead = case["k"], case["d"], case["dead"]
+    n = 4 ** k
+    acc = -np.ones((n, 4), dtype=int)
+    for v in range(n):
+        if v == dead:
+            continue
+        live_js = [j for j in range(4) if (v * 4 + j) % n != dead]
+        for j in rng.sample(live_js, d):
+            acc[v, j] = (v * 4 + j) % n
+        for j in range(4):
+            if (v * 4 + j) % n == dead:
+                acc[v, j] = dead                       # an extra arc into the arc-less vertex
+    where = "k=%d, every vertex except %d has exactly %d live successors, arcs into %d kept; graph=%s" % (k, dead, d, dead, G.acc_to_hex(acc))
+    val = _cap(ctx, dsw, frozen(acc), 1, where)
+    if val is not None and val != float(np.log2(float(d))):
+        ctx.fail("regular-not-exact", "single-start capacity is %r, expected exactly %r; %s" % (val, float(np.log2(float(d))), where))
+    ctx.cls("regular|one arc-less vertex %s" % ("0" if dead == 0 else "last" if dead == n - 1 else "other"))
+    ctx.done("regular_dead", case, True)
+
+
 def check_regular_large(ctx, case):
     """d-regular graph on the alphabet `cols` embedded in the order-k de Bruijn graph (orders 5..8, 65 536 vertices at 8)."""
     dsw = import_dsw()
@@ -443,7 +473,7 @@ def check_edit_sequence(ctx, case):
     ctx.done("edit_sequence", case, True)
 
 
-CHECKS = {"regular_large": check_regular_large, "edit_sequence": check_edit_sequence, "capacity": check_capacity, "regular": check_regular, "bounds": check_bounds}
+CHECKS = {"regular_dead": check_regular_dead, "regular_large": check_regular_large, "edit_sequence": check_edit_sequence, "capacity": check_capacity, "regular": check_regular, "bounds": check_bounds}
 
 
 def floors(agg, tier):
@@ -452,7 +482,7 @@ def floors(agg, tier):
     for name, need in (("precondition graph", 300), ("non-regular graph whose first two estimates coincide", 30),
                        ("bounds|arc-less", 2), ("bounds|any graph", 100), ("precondition graph|tails", 20),
                        ("precondition graph|generated", 20), ("precondition graph|sparse", 100), ("accessor layout|F", 50),
-                       ("capacity re-requested after in-place edits of the same accessor", 50), ("regular|order 8", 1),
+                       ("capacity re-requested after in-place edits of the same accessor", 50), ("regular|order 8", 1), ("regular|one arc-less vertex 0", 6),
                        ("non-regular graph with a uniform raw out-degree (arcs into arc-less vertices)", 15)):
         if c.get(name, 0) < need:
             out.append("%s observed %d < %d" % (name, c.get(name, 0), need))
